@@ -36,6 +36,7 @@ fn main() {
         }
         Some("calib") => calib(&args[2..]),
         Some("lexdiff") => lexdiff(),
+        Some("diffops") => diffops(&args[2], &args[3]),
         Some("roundtrip") => roundtrip(&args[2], &args[3]),
         Some("dumpn") => dumpn(&args[2]),
         _ => {
@@ -216,5 +217,17 @@ pub fn roundtrip(path: &str, syn: &str) {
             }
         }
         Err(e) => println!("parse error: {e}"),
+    }
+}
+
+#[allow(dead_code)]
+pub fn diffops(a: &str, b: &str) {
+    let old = std::fs::read_to_string(a).unwrap();
+    let new = std::fs::read_to_string(b).unwrap();
+    let d = similar::TextDiff::from_lines(&old, &new);
+    for g in d.grouped_ops(0) {
+        for op in g {
+            println!("{op:?}");
+        }
     }
 }
